@@ -28,10 +28,12 @@ PLANS = {
     # C07: monitor inside searches (plain + asan) and the same seeds in every SIMD build variant (hashes must agree)
     'C07': {'quick': [E('C07', 'plain', 300, 35, compare_group='simd'), E('C07', 'plain-ssse3', 300, 35, compare_group='simd'),
                       E('C07', 'plain-avx2', 300, 35, compare_group='simd'), E('C07', 'plain-avx512', 300, 35, compare_group='simd'),
-                      E('C07', 'asan', 80, 30, seed_offset=500000, run_wall_s=120)],
+                      E('C07', 'asan', 80, 30, seed_offset=500000, run_wall_s=120),
+                      E('C07H', 'plain', 2500, 30, seed_offset=600000), E('C07H', 'asan', 300, 20, seed_offset=700000)],
             'thorough': [E('C07', 'plain', 20000, 2400, tier=1, compare_group='simd'), E('C07', 'plain-ssse3', 20000, 2400, tier=1, compare_group='simd'),
                          E('C07', 'plain-avx2', 20000, 2400, tier=1, compare_group='simd'), E('C07', 'plain-avx512', 20000, 2400, tier=1, compare_group='simd'),
-                         E('C07', 'asan', 3000, 1200, seed_offset=500000, run_wall_s=300, tier=1)]},
+                         E('C07', 'asan', 3000, 1200, seed_offset=500000, run_wall_s=300, tier=1),
+                         E('C07H', 'plain', 200000, 1800, seed_offset=600000, tier=1), E('C07H', 'asan', 20000, 900, seed_offset=700000, tier=1)]},
     'C08': {'quick': [E('C08', 'plain', 6000, 70), E('C08', 'asan', 600, 40, seed_offset=500000)],
             'thorough': [E('C08', 'plain', 1000000, 3000, tier=1), E('C08', 'asan', 50000, 1500, seed_offset=500000, tier=1)]},
     'C09': {'quick': [E('C09', 'tsan', 400, 100, run_wall_s=200), E('C09PG', 'tsan', 300, 25, seed_offset=500000, run_wall_s=120)],
